@@ -1,4 +1,5 @@
 import SynKitModel.Store
+import Std.Data.String.ToNat
 /-! Helper lemmas for C15 (store invariants). -/
 namespace SynKit.Store
 
@@ -10,6 +11,7 @@ structure Store.Inv (s : Store) : Prop where
   out_iff : ∀ sp i, i ∈ s.outIdx.getD sp [] ↔ ∃ e ∈ s.edges, e.id = i ∧ sp ∈ e.reactants.keys
   mol_sub : ∀ sp ∈ s.mol.keys, sp ∈ s.species
   sides_wf : ∀ e ∈ s.edges, e.reactants.keys.Nodup ∧ e.products.keys.Nodup
+  nonempty : ∀ e ∈ s.edges, e.isEmpty = false
 
 def Op.target : Op → Nat
   | .add k .. => k
@@ -19,26 +21,370 @@ def Op.target : Op → Nat
   | .copy _ j => j
   | .assignMol k .. => k
 
-theorem initWorld_inv (n : Nat) : ∀ s ∈ initWorld n, s.Inv := by sorry
-theorem inv_run (w : World) (ops : List Op) (h : ∀ s ∈ w, s.Inv) : ∀ s ∈ run w ops, s.Inv := by sorry
-theorem step_frame' (w : World) (op : Op) (i : Nat) (h : i ≠ op.target) :
-    (step w op).1[i]? = w[i]? := by sorry
-theorem mkId_inj (rule : String) (a b : Nat) (h : mkId rule a = mkId rule b) : a = b := by sorry
+theorem mkId_inj (rule : String) (a b : Nat) (h : mkId rule a = mkId rule b) : a = b := by
+  unfold mkId at h
+  have h2 := (String.append_right_inj _).mp h
+  exact Nat.repr_injective h2
+
+theorem firstFreeAux_spec (rule : String) : ∀ (fuel : Nat) (ids : List String) (c : Nat),
+    ids.length < fuel →
+    mkId rule (firstFreeAux fuel ids rule c) ∉ ids ∧ c ≤ firstFreeAux fuel ids rule c := by
+  intro fuel
+  induction fuel with
+  | zero => intro ids c h; omega
+  | succ fuel ih =>
+    intro ids c h
+    unfold firstFreeAux
+    split
+    · rename_i hm
+      have hl : (ids.erase (mkId rule c)).length < fuel := by
+        rw [List.length_erase_of_mem hm]
+        have : 0 < ids.length := List.length_pos_of_mem hm
+        omega
+      obtain ⟨h1, h2⟩ := ih (ids.erase (mkId rule c)) (c + 1) hl
+      refine ⟨?_, by omega⟩
+      intro hmem
+      apply h1
+      refine (List.mem_erase_of_ne ?_).2 hmem
+      intro heq
+      have := mkId_inj _ _ _ heq
+      omega
+    · rename_i hm
+      exact ⟨hm, Nat.le_refl _⟩
+
 theorem firstFree_fresh' (ids : List String) (rule : String) (c : Nat) :
-    mkId rule (firstFree ids rule c) ∉ ids := by sorry
+    mkId rule (firstFree ids rule c) ∉ ids :=
+  (firstFreeAux_spec rule _ ids c (Nat.lt_succ_self _)).1
+
+theorem step_frame' (w : World) (op : Op) (i : Nat) (h : i ≠ op.target) :
+    (step w op).1[i]? = w[i]? := by
+  cases op <;> simp only [Op.target] at h <;> unfold step <;> simp only [World.put] <;>
+    (repeat' split) <;> simp [List.getElem?_set_ne (Ne.symm h)]
+
+/-! ### General `Dict` lemmas -/
+
+theorem getD_set_self {α} (d : Dict α) (k : String) (v dflt : α) : (d.set k v).getD k dflt = v := by
+  simp [Dict.getD, Dict.get?_set_self]
+
+theorem getD_set_other {α} (d : Dict α) (k : String) (v dflt : α) (x : String) (hx : x ≠ k) :
+    (d.set k v).getD x dflt = d.getD x dflt := by
+  simp [Dict.getD, Dict.get?_set_other _ _ _ _ hx]
+
+theorem getD_erase_self {α} (d : Dict α) (k : String) (dflt : α) : (d.erase k).getD k dflt = dflt := by
+  simp [Dict.getD, Dict.get?_erase_self]
+
+theorem getD_erase_other {α} (d : Dict α) (k : String) (dflt : α) (x : String) (hx : x ≠ k) :
+    (d.erase k).getD x dflt = d.getD x dflt := by
+  simp [Dict.getD, Dict.get?_erase_other _ _ _ hx]
+
+theorem keys_set {α} (d : Dict α) (k : String) (v : α) :
+    (d.set k v).keys = if k ∈ d.keys then d.keys else d.keys ++ [k] := by
+  induction d with
+  | nil => simp [Dict.set, Dict.keys]
+  | cons p rest ih =>
+    obtain ⟨k', v'⟩ := p
+    simp only [Dict.set]
+    by_cases h : k' = k
+    · subst h; simp [Dict.keys]
+    · simp only [h, if_false]
+      simp only [Dict.keys, List.map_cons, List.mem_cons] at ih ⊢
+      rw [ih]
+      have : ¬ k = k' := fun h' => h h'.symm
+      simp only [this, false_or]
+      split <;> simp [*]
+
+theorem nodup_keys_set {α} (d : Dict α) (k : String) (v : α) (h : d.keys.Nodup) :
+    (d.set k v).keys.Nodup := by
+  rw [keys_set]
+  split
+  · exact h
+  · rename_i hk
+    rw [List.nodup_append]
+    refine ⟨h, by simp, ?_⟩
+    intro a ha b hb
+    simp only [List.mem_singleton] at hb
+    subst hb
+    intro hab; subst hab; exact hk ha
+
+theorem nodup_keys_erase {α} (d : Dict α) (k : String) (h : d.keys.Nodup) :
+    (d.erase k).keys.Nodup :=
+  List.Nodup.sublist ((Dict.erase_sublist d k).map _) h
+
+theorem erase_of_not_mem {α} (d : Dict α) (k : String) (h : k ∉ d.keys) : d.erase k = d := by
+  induction d with
+  | nil => rfl
+  | cons p rest ih =>
+    obtain ⟨k', v'⟩ := p
+    simp only [Dict.keys, List.map_cons, List.mem_cons, not_or] at h
+    simp only [Dict.erase]
+    have : ¬ k' = k := fun h' => h.1 h'.symm
+    simp only [this, if_false]
+    rw [ih h.2]
+
+theorem isEmpty_false_of_mem_keys {α} (d : Dict α) (k : String) (h : k ∈ d.keys) :
+    d.isEmpty = false := by
+  cases d with
+  | nil => simp [Dict.keys] at h
+  | cons _ _ => rfl
+
+/-! ### Incidence -/
+
+theorem foldl_acc_getD (op : Int → Nat → Int) (d : Dict Nat) (hn : d.keys.Nodup) (sp : String) :
+    ∀ (m : Dict Int),
+    (d.foldl (fun (m : Dict Int) kv => m.set kv.1 (op (m.getD kv.1 0) kv.2)) m).getD sp 0 =
+      match d.get? sp with
+      | some v => op (m.getD sp 0) v
+      | none => m.getD sp 0 := by
+  induction d with
+  | nil => intro m; simp [Dict.get?]
+  | cons p rest ih =>
+    obtain ⟨k, v⟩ := p
+    intro m
+    simp only [Dict.keys, List.map_cons, List.nodup_cons] at hn
+    simp only [List.foldl_cons]
+    rw [ih hn.2]
+    simp only [Dict.get?]
+    by_cases hk : k = sp
+    · subst hk
+      have : Dict.get? rest k = none := (Dict.get?_eq_none_iff rest k).2 hn.1
+      simp [this, getD_set_self]
+    · have hk' : sp ≠ k := fun h => hk h.symm
+      simp only [hk, if_false, getD_set_other _ _ _ _ _ hk']
+
+theorem incidence_spec' (e : Edge) (hr : e.reactants.keys.Nodup) (hp : e.products.keys.Nodup)
+    (sp : String) :
+    (incidenceEdge e).getD sp 0 = coeff e.products sp - coeff e.reactants sp := by
+  unfold incidenceEdge
+  simp only []
+  rw [foldl_acc_getD (fun a b => a + (b : Int)) e.products hp sp]
+  rw [foldl_acc_getD (fun a b => a - (b : Int)) e.reactants hr sp]
+  simp only [coeff, Dict.getD]
+  cases e.products.get? sp <;> cases e.reactants.get? sp <;> simp [Dict.get?] <;> omega
+
+/-! ### Lookup lemmas -/
+
+@[simp] theorem nextId_edges (s : Store) (rule : String) : (s.nextId rule).1.edges = s.edges := rfl
+@[simp] theorem nextId_ids (s : Store) (rule : String) : (s.nextId rule).1.ids = s.ids := rfl
+
+theorem nextId_fresh (s : Store) (rule : String) : (s.nextId rule).2 ∉ s.ids :=
+  firstFree_fresh' _ _ _
+
+theorem findEdge_insertEdge_other (s : Store) (e : Edge) (j : String) (h : j ≠ e.id) :
+    (s.insertEdge e).findEdge j = s.findEdge j := by
+  simp [Store.findEdge, Store.insertEdge, List.find?_append, Ne.symm h]
+
+theorem findEdge_eq_none_of_not_mem (s : Store) (i : String) (h : i ∉ s.ids) :
+    s.findEdge i = none := by
+  simp only [Store.findEdge, List.find?_eq_none, decide_eq_true_eq]
+  intro e he heq
+  exact h (heq ▸ List.mem_map.2 ⟨e, he, rfl⟩)
+
+theorem findEdge_insertEdge_self (s : Store) (e : Edge) (h : e.id ∉ s.ids) :
+    (s.insertEdge e).findEdge e.id = some e := by
+  have := findEdge_eq_none_of_not_mem s e.id h
+  simp only [Store.findEdge] at this
+  simp [Store.findEdge, Store.insertEdge, List.find?_append, this]
+
+theorem addNorm_ok (s s' : Store) (r p : Side) (rule eid i)
+    (h : s.addNorm r p rule eid = (s', .ok i)) :
+    i ∉ s.ids ∧ (r.isEmpty && p.isEmpty) = false ∧
+      ∃ s0 : Store, s0.edges = s.edges ∧ s0.species = s.species ∧ s0.inIdx = s.inIdx ∧
+        s0.outIdx = s.outIdx ∧ s0.mol = s.mol ∧ s0.kept = s.kept ∧
+        s' = s0.insertEdge ⟨i, normRule rule, r, p⟩ := by
+  unfold Store.addNorm at h
+  cases eid with
+  | some i0 =>
+    simp only at h
+    split at h
+    · simp at h
+    · split at h
+      · simp at h
+      · rename_i h1 h2
+        simp only [Prod.mk.injEq, Except.ok.injEq] at h
+        obtain ⟨h3, h4⟩ := h
+        subst h4
+        exact ⟨h1, by simpa using h2, s, rfl, rfl, rfl, rfl, rfl, rfl, h3.symm⟩
+  | none =>
+    simp only at h
+    split at h
+    · simp at h
+    · rename_i h2
+      simp only [Prod.mk.injEq, Except.ok.injEq] at h
+      obtain ⟨h3, h4⟩ := h
+      subst h4
+      exact ⟨nextId_fresh s _, by simpa using h2, (s.nextId (normRule rule)).1,
+        rfl, rfl, rfl, rfl, rfl, rfl, h3.symm⟩
+
+theorem addNorm_err_edges (s s' : Store) (r p : Side) (rule eid err)
+    (h : s.addNorm r p rule eid = (s', .error err)) : s'.edges = s.edges := by
+  unfold Store.addNorm at h
+  cases eid with
+  | some i0 =>
+    simp only at h
+    split at h
+    · simp only [Prod.mk.injEq] at h; rw [← h.1]
+    · split at h
+      · simp only [Prod.mk.injEq] at h; rw [← h.1]
+      · simp at h
+  | none =>
+    simp only at h
+    split at h
+    · simp only [Prod.mk.injEq] at h; rw [← h.1]; rfl
+    · simp at h
+
 theorem add_lookup_self' (s s' : Store) (r p rule eid i) (hinv : s.Inv)
     (h : s.add r p rule eid = (s', .ok i)) :
-    s'.findEdge i = some ⟨i, normRule rule, normSide r, normSide p⟩ ∧ i ∉ s.ids := by sorry
+    s'.findEdge i = some ⟨i, normRule rule, normSide r, normSide p⟩ ∧ i ∉ s.ids := by
+  have _ := hinv
+  obtain ⟨h1, _, s0, he, _, _, _, _, _, hs'⟩ := addNorm_ok _ _ _ _ _ _ _ h
+  refine ⟨?_, h1⟩
+  subst hs'
+  have : i ∉ s0.ids := by simpa [Store.ids, he] using h1
+  exact findEdge_insertEdge_self s0 ⟨i, normRule rule, normSide r, normSide p⟩ this
+
 theorem add_lookup_other' (s s' : Store) (r p rule eid res) (j : String)
     (h : s.add r p rule eid = (s', res)) (hj : ∀ i, res = .ok i → j ≠ i) :
-    s'.findEdge j = s.findEdge j := by sorry
+    s'.findEdge j = s.findEdge j := by
+  cases res with
+  | ok i =>
+    obtain ⟨h1, _, s0, he, _, _, _, _, _, hs'⟩ := addNorm_ok _ _ _ _ _ _ _ h
+    subst hs'
+    rw [findEdge_insertEdge_other _ _ _ (hj i rfl)]
+    simp [Store.findEdge, he]
+  | error err =>
+    have := addNorm_err_edges _ _ _ _ _ _ _ h
+    simp [Store.findEdge, this]
+
+theorem find?_congr' {α} (l : List α) (p q : α → Bool) (h : ∀ x ∈ l, p x = q x) :
+    l.find? p = l.find? q := by
+  induction l with
+  | nil => rfl
+  | cons a l ih =>
+    simp only [List.find?_cons, h a (List.mem_cons_self ..)]
+    rw [ih (fun x hx => h x (List.mem_cons_of_mem _ hx))]
+
+theorem foldl_dropIfOrphan_edges (l : List String) : ∀ (s : Store),
+    (l.foldl Store.dropIfOrphan s).edges = s.edges := by
+  induction l with
+  | nil => intro s; rfl
+  | cons a l ih =>
+    intro s
+    simp only [List.foldl_cons, ih]
+    unfold Store.dropIfOrphan
+    split <;> rfl
+
 theorem remove_lookup' (s s' : Store) (i : String) (res) (h : s.remove i = (s', res)) :
-    (∀ j, j ≠ i → s'.findEdge j = s.findEdge j) ∧ (res = .ok () → s'.findEdge i = none) := by sorry
+    (∀ j, j ≠ i → s'.findEdge j = s.findEdge j) ∧ (res = .ok () → s'.findEdge i = none) := by
+  unfold Store.remove at h
+  split at h
+  · rename_i hf
+    simp only [Prod.mk.injEq] at h
+    obtain ⟨h1, h2⟩ := h
+    subst h1; subst h2
+    exact ⟨fun _ _ => rfl, by simp⟩
+  · rename_i e hf
+    simp only [Prod.mk.injEq] at h
+    obtain ⟨h1, h2⟩ := h
+    subst h1
+    simp only [Store.findEdge, foldl_dropIfOrphan_edges]
+    constructor
+    · intro j hj
+      rw [List.find?_filter]
+      apply find?_congr'
+      intro x _
+      by_cases hx : x.id = j
+      · simp [hx, hj]
+      · simp [hx]
+    · intro _
+      simp [List.find?_eq_none]
+
+/-! ### Index and set folds -/
+
+theorem mem_idxAdd (sps : List String) (id sp i : String) : ∀ (idx : Dict (List String)),
+    i ∈ (idxAdd idx sps id).getD sp [] ↔ i ∈ idx.getD sp [] ∨ (i = id ∧ sp ∈ sps) := by
+  induction sps with
+  | nil => intro idx; simp [idxAdd]
+  | cons a rest ih =>
+    intro idx
+    have := ih (idx.set a (setAdd (idx.getD a []) id))
+    simp only [idxAdd, List.foldl_cons] at this ⊢
+    rw [this]
+    by_cases h : sp = a
+    · subst h
+      rw [getD_set_self, mem_setAdd]
+      simp only [List.mem_cons, true_or, and_true]
+      constructor
+      · rintro ((h | h) | h)
+        · exact Or.inl h
+        · exact Or.inr h
+        · exact Or.inr h.1
+      · rintro (h | h)
+        · exact Or.inl (Or.inl h)
+        · exact Or.inl (Or.inr h)
+    · rw [getD_set_other _ _ _ _ _ h]
+      simp [h]
+
+theorem mem_idxDiscard (sps : List String) (id sp i : String) : ∀ (idx : Dict (List String)),
+    i ∈ (idxDiscard idx sps id).getD sp [] ↔ i ∈ idx.getD sp [] ∧ ¬(i = id ∧ sp ∈ sps) := by
+  induction sps with
+  | nil => intro idx; simp [idxDiscard]
+  | cons a rest ih =>
+    intro idx
+    have := ih (idx.set a (setDiscard (idx.getD a []) id))
+    simp only [idxDiscard, List.foldl_cons] at this ⊢
+    rw [this]
+    by_cases h : sp = a
+    · subst h
+      rw [getD_set_self, mem_setDiscard]
+      simp only [List.mem_cons, true_or, and_true]
+      constructor
+      · rintro ⟨⟨h1, h2⟩, _⟩
+        exact ⟨h1, h2⟩
+      · rintro ⟨h1, h2⟩
+        exact ⟨⟨h1, h2⟩, fun h => h2 h.1⟩
+    · rw [getD_set_other _ _ _ _ _ h]
+      simp [h]
+
+theorem getD_idxTouch (sps : List String) (sp : String) : ∀ (idx : Dict (List String)),
+    (idxTouch idx sps).getD sp [] = idx.getD sp [] := by
+  induction sps with
+  | nil => intro idx; rfl
+  | cons a rest ih =>
+    intro idx
+    simp only [idxTouch, List.foldl_cons]
+    have := ih (if idx.contains a then idx else idx.set a [])
+    simp only [idxTouch] at this
+    rw [this]
+    split
+    · rfl
+    · rename_i hc
+      by_cases h : sp = a
+      · subst h
+        rw [getD_set_self]
+        simp only [Dict.contains, decide_eq_true_eq] at hc
+        simp [Dict.getD, (Dict.get?_eq_none_iff idx sp).2 hc]
+      · rw [getD_set_other _ _ _ _ _ h]
+
+theorem mem_foldl_setAdd (l : List String) (x : String) : ∀ (S : List String),
+    x ∈ l.foldl setAdd S ↔ x ∈ S ∨ x ∈ l := by
+  induction l with
+  | nil => intro S; simp
+  | cons a l ih =>
+    intro S
+    simp only [List.foldl_cons, ih, mem_setAdd, List.mem_cons]
+    constructor
+    · rintro ((h | h) | h)
+      · exact Or.inl h
+      · exact Or.inr (Or.inl h)
+      · exact Or.inr (Or.inr h)
+    · rintro (h | h | h)
+      · exact Or.inl (Or.inl h)
+      · exact Or.inl (Or.inr h)
+      · exact Or.inr h
+
+theorem initWorld_inv (n : Nat) : ∀ s ∈ initWorld n, s.Inv := by sorry
+theorem inv_run (w : World) (ops : List Op) (h : ∀ s ∈ w, s.Inv) : ∀ s ∈ run w ops, s.Inv := by sorry
 theorem removeSpecies_edges (s s' : Store) (sp : String) (prune : Bool) (hinv : s.Inv)
     (h : s.removeSpecies sp prune = (s', .ok ())) :
     s'.edges = (s.edges.map (·.strip sp)).filter (fun e => !e.isEmpty) := by sorry
-theorem incidence_spec' (e : Edge) (hr : e.reactants.keys.Nodup) (hp : e.products.keys.Nodup)
-    (sp : String) :
-    (incidenceEdge e).getD sp 0 = coeff e.products sp - coeff e.reactants sp := by sorry
-
 end SynKit.Store
